@@ -235,7 +235,7 @@ Lemma ghost_descend_weight votes : forall fuel cur d g d',
   vs_threshold vs <= block_weight vs hs votes g.
 Proof.
   induction fuel as [|f IH]; intros cur d g d' W H; cbn [ghost_descend] in H.
-  - inversion H; subst. assumption.
+  - discriminate.
   - destruct (filter _ (children hs votes cur)) as [|c [|c' r]] eqn:F.
     + inversion H; subst. assumption.
     + apply (IH c (d + 1) g d'); [|assumption].
